@@ -76,5 +76,21 @@ def cellStepNdT (kernel : List α → List (List α) → List α → KRes α) (s
     (nI : Nat) (h : Heap α) (parameters inputs states outputs : Arr) (rd : RunDims) (i : Int) : R (Heap α) :=
   cellStepNdG kernel (decodeNd h parameters i (spec.zip lay) [] []) nI h inputs states outputs rd i
 
+/-- the goroutines of cells `i, i+1, …` (`n` of them) executed one after the other (C05 is about why the order does not
+matter), for a spec with table parameters -/
+def runCellsNdT (kernel : List α → List (List α) → List α → KRes α) (spec : ParamSpec) (lay : List (Nat × Nat))
+    (nI : Nat) (parameters inputs states outputs : Arr) (rd : RunDims) : Nat → Int → Heap α → R (Heap α)
+  | 0, _, h => .ok h
+  | n + 1, i, h => do
+    let h1 ← cellStepNdT kernel spec lay nI h parameters inputs states outputs rd i
+    runCellsNdT kernel spec lay nI parameters inputs states outputs rd n (i + 1) h1
+
+/-- `Run(inputs, states, outputs)` for a spec with table parameters laid out in rows `lay` (by `ApplyParameters`, before
+`Run`): the preamble, then one goroutine per cell `0 … numCells-1` -/
+def runNdT (kernel : List α → List (List α) → List α → KRes α) (spec : ParamSpec) (lay : List (Nat × Nat)) (nI : Nat)
+    (h : Heap α) (parameters inputs states outputs : Arr) : R (Heap α) := do
+  let rd ← runDims inputs states outputs
+  runCellsNdT kernel spec lay nI parameters inputs states outputs rd rd.numCells.toNat 0 h
+
 end
 end OW.Sim.WrapperNd
